@@ -215,7 +215,9 @@ def leaf_text(lf, syn, mode):
             raise EncFail("C17-time-minus-one")
         return lf["canon"]
     if mode == "tree" and syn == "cxer" and lf["t"] == -1:
-        raise EncFail("C17-time-minus-one")      # the canonical XER encoders parse the text first (and then write the stored one)
+        raise EncFail("C17-time-minus-one")      # the canonical XER encoders parse the text first
+    if mode == "tree" and syn == "cxer" and lf["kind"] == "gt":
+        return lf["canon"]                       # since fix d60e882 GeneralizedTime_encode_xer writes the canonical form (UTCTime: still the stored one)
     return lf["text"]
 
 
@@ -360,7 +362,7 @@ def time_findings(tn, v, syn):
         ids.append("C17-time-minus-one")
     if syn == "der" and any(l["kind"] == "ut" and l["text"] != l["canon"] for l in ls):
         ids.append("C06-utctime-der-verbatim")
-    if syn == "cxer" and any(l["text"] != l["canon"] for l in ls):
+    if syn == "cxer" and any(l["kind"] == "ut" and l["text"] != l["canon"] for l in ls):
         ids.append("C06-cxer-time-verbatim")
     if syn in ("cper", "coer") and any(l["text"] != l["canon"] for l in ls):
         ids.append("C06-time-per-oer-verbatim")
